@@ -27,6 +27,9 @@ func checkC11(c *Ctx, r *Report) {
 	c11R6(c, r)
 	c11CanonicalNames(c, r, "C11.R1.canonical-names")
 	borrow(c, r, c15Out, "C15.R4.sender", "C11.R5.server-chain", 1, "the server's writer keeps the MAC of the envelope it just signed as the prior MAC of the next one", func(k string) bool { return strings.Contains(k, "mac-chain") }, "envelopes 2..n of a signed multi-message reply are then digested over the request MAC instead of the previous envelope's MAC")
+	c11CopyAfterDefaults(c, r, "C11.R4.copy-after-defaults")
+	sideStructOffsets(c, r, "C11.R4.digest-offsets", "the digest input ends before that field: the field is not covered by the MAC (a fudge or time that can be altered without invalidating the signature), and the MAC is not the RFC 8945 one")
+	borrow(c, r, c12R4, "C12.R4.pool-release", "C11.R3.verify-before-release", 2, "the request buffer is not returned to the pool before the TSIG on it has been verified", nil, "another datagram can be read into the octets while they are being verified: valid requests are refused and altered ones accepted")
 }
 
 func isUint64(v ssa.Value) bool {
